@@ -610,9 +610,12 @@ func (a *MaxValueArg) Parse() error {
 	return nil
 }
 
+// Min: the start is "min"; Max: the end is "max". MaxStart / MinEnd: the start
+// is "max" / the end is "min" (a part that is "max" or "min" alone).
 type argRb struct {
-	Min, Max   bool
-	Start, End string
+	Min, Max         bool
+	MaxStart, MinEnd bool
+	Start, End       string
 }
 
 type RangeArgBdrySlice []argRb
@@ -642,33 +645,30 @@ func (a *RangeArg) Parse() error {
 		}
 		switch len(rbs) {
 		case 1:
-			switch rbs[0] {
-			case "max":
-				r.Max = true
-			case "min":
-				r.Min = true
-			default:
-				r.Start = rbs[0]
-				r.End = rbs[0]
-			}
+			// a single boundary is both the start and the end
+			rbs = append(rbs, rbs[0])
 		case 2:
-			switch rbs[0] {
-			case "min":
-				r.Min = true
-			default:
-				r.Start = rbs[0]
-			}
-			switch rbs[1] {
-			case "max":
-				r.Max = true
-			default:
-				r.End = rbs[1]
-			}
 		default:
 			return ErrInval
 		}
-		if (!r.Min && !rangeBoundaryRe.MatchString(r.Start)) ||
-			(!r.Max && !rangeBoundaryRe.MatchString(r.End)) {
+		switch rbs[0] {
+		case "min":
+			r.Min = true
+		case "max":
+			r.MaxStart = true
+		default:
+			r.Start = rbs[0]
+		}
+		switch rbs[1] {
+		case "max":
+			r.Max = true
+		case "min":
+			r.MinEnd = true
+		default:
+			r.End = rbs[1]
+		}
+		if (!r.Min && !r.MaxStart && !rangeBoundaryRe.MatchString(r.Start)) ||
+			(!r.Max && !r.MinEnd && !rangeBoundaryRe.MatchString(r.End)) {
 			return ErrInval
 		}
 		a.rbs = append(a.rbs, r)
@@ -676,9 +676,12 @@ func (a *RangeArg) Parse() error {
 	return nil
 }
 
+// Min: the start is "min"; Max: the end is "max". MaxStart / MinEnd: the start
+// is "max" / the end is "min" (a part that is "max" or "min" alone).
 type Lb struct {
-	Min, Max   bool
-	Start, End uint64
+	Min, Max         bool
+	MaxStart, MinEnd bool
+	Start, End       uint64
 }
 
 type LengthArg struct {
@@ -705,51 +708,41 @@ func (a *LengthArg) Parse() error {
 		}
 		switch len(bs) {
 		case 1:
-			switch bs[0] {
-			case "max":
-				l.Max = true
-			case "min":
-				l.Min = true
-			default:
-				if !isIntegerValue(bs[0], false) {
-					return ErrInval
-				}
-				i, e := strconv.ParseUint(bs[0], 10, 64)
-				if e != nil {
-					return e
-				}
-				l.Start = i
-				l.End = i
-			}
+			// a single boundary is both the start and the end
+			bs = append(bs, bs[0])
 		case 2:
-			switch bs[0] {
-			case "min":
-				l.Min = true
-			default:
-				if !isIntegerValue(bs[0], false) {
-					return ErrInval
-				}
-				i, e = strconv.ParseUint(bs[0], 10, 64)
-				if e != nil {
-					return e
-				}
-				l.Start = i
-			}
-			switch bs[1] {
-			case "max":
-				l.Max = true
-			default:
-				if !isIntegerValue(bs[1], false) {
-					return ErrInval
-				}
-				i, e = strconv.ParseUint(bs[1], 10, 64)
-				if e != nil {
-					return e
-				}
-				l.End = i
-			}
 		default:
 			return ErrInval
+		}
+		switch bs[0] {
+		case "min":
+			l.Min = true
+		case "max":
+			l.MaxStart = true
+		default:
+			if !isIntegerValue(bs[0], false) {
+				return ErrInval
+			}
+			i, e = strconv.ParseUint(bs[0], 10, 64)
+			if e != nil {
+				return e
+			}
+			l.Start = i
+		}
+		switch bs[1] {
+		case "max":
+			l.Max = true
+		case "min":
+			l.MinEnd = true
+		default:
+			if !isIntegerValue(bs[1], false) {
+				return ErrInval
+			}
+			i, e = strconv.ParseUint(bs[1], 10, 64)
+			if e != nil {
+				return e
+			}
+			l.End = i
 		}
 		a.lbs = append(a.lbs, l)
 	}
